@@ -42,6 +42,14 @@ OK17(e) ==
             /\ a.filter = Opt(sh, ShareFilter(e.b))
             /\ a.info   = Opt(sh, <<ShareName(e.b), ShareFilter(e.b)>>)
             /\ a.text_same /\ a.deref_same
+            \* ... and the same of the values the four SUBSCRIBE / UNSUBSCRIBE decoders built from this text
+            /\ (Has(e, "pkt") /\ NoPanic(e.pkt) =>
+                    \A k \in DOMAIN e.pkt.acc :
+                        LET p == e.pkt.acc[k] IN
+                        /\ NoPanic(p) /\ p.shared = sh
+                        /\ p.group = Opt(sh, ShareName(e.b)) /\ p.filter = Opt(sh, ShareFilter(e.b))
+                        /\ p.info = Opt(sh, <<ShareName(e.b), ShareFilter(e.b)>>)
+                        /\ p.text_same /\ p.deref_same)
 
 OK17Pair(e) ==
     /\ NoPanic(e)
@@ -60,7 +68,7 @@ OK18(e) ==
              /\ e.n.acc.sys = NameIsSys(e.b)
     /\ Has(e, "pkt") =>
           /\ NoPanic(e.pkt)
-          /\ \A k \in {"v3pub", "v5pub", "v3will", "v5will"} :
+          /\ \A k \in {"v3pub", "v5pub", "v3will", "v5will", "v31will", "v3pub0", "v5pub0"} :
                 e.pkt[k] = (IF ok THEN "ok" ELSE "InvalidTopicName")
           /\ \A k \in {"v5resp", "v5willresp"} :
                 e.pkt[k] = (IF ok THEN "ok" ELSE "InvalidResponseTopic")
